@@ -382,7 +382,31 @@ func (h *vHist) checkChain(tag string, tip int) {
 	}
 }
 
+// scaledSaveIsFaithful: with scaled-down constants a Save while the best chain is an unconsolidated
+// side branch rewrites the header file that holds the branch's first height from that height on; the
+// best-chain headers below it in that file are only safe because, at the real constants
+// (pruneDepth 10000 > fork depth <= 144 + headersPerFile 1000), they are always still in memory after
+// a Load. Histories in which the scaled constants break that order relation are outside the claim.
+func (h *vHist) scaledSaveIsFaithful() bool {
+	prune := verifParam("prune", 0)
+	if prune == 0 {
+		return true
+	}
+	perFile := verifParam("perfile", 2)
+	b := h.repo.longest
+	if b == nil || b.parent == nil {
+		return true
+	}
+	for b.parent != nil && b.parent.parent != nil {
+		b = b.parent
+	}
+	first := b.parentHeight + 1
+	fileStart := (first / perFile) * perFile
+	return fileStart >= h.repo.longest.Height()-prune
+}
+
 func (h *vHist) saveLoad() error {
+	verifAssume(h.scaledSaveIsFaithful())
 	if err := h.repo.Save(h.ctx); err != nil {
 		return errors.Wrap(err, "save")
 	}
